@@ -69,6 +69,15 @@ def oracle_fails(pid, rec):
 NOT_APPLICABLE = {}
 
 PROPS = {
+    "C07": {
+        "rule": "paths of length 1..2 exhaustively (quick; 3 in thorough) and guided random walks of length 3..5 over nested data (arrays of length 0..5 inside objects inside arrays; own `size`/`first`/`0` keys; non-ASCII strings), every step drawn from integer literals -7..6, i64::MIN/MAX, key literals incl. first/last/size and integer-like strings, variables holding indices/keys (incl. undefined, array-valued, boolean) and nested paths; literals: integers at the 64-bit boundaries, one past them, 19..24 digit numbers, random 64-bit sweep, explicit `+` and leading zeros, decimals with 1..6 fraction digits, strings in both quote styles over an alphabet with non-ASCII/combining/emoji/markup characters, keywords; non-trivial = distinct case with a non-empty result",
+        "explanation": "Lean theorems C07_* (index law for all n and i; first/last/size; own key wins; stepwise resolution; a missing step is an error and never the find panic; output tag over found/missing path; decimal round-trip of every i64 through the digit printer and parse::<i64> model; out-of-range literals rejected; string literal content preserved; keywords) + differential run against the real crate",
+        "exhaustive": False,
+        "manifest_text": "Lean 4 theorems for all arrays, indices, objects, paths and all 64-bit integers: negative/positive index law with no wrap-around, first/last/size meaning with own-key precedence, a path resolves iff every step resolves (otherwise the failing lookup is an error, never nil/neighbour/panic) and the output tag prints exactly the found value, every i64 round-trips through its decimal literal, out-of-range integer literals are rejected, string literal contents are preserved, keywords denote themselves. Tied to /repo by a differential run on generated nested data and literal sweeps.",
+        "manifest_note": "Trusted: Lean kernel + allowed axioms, theorem statements, hand-written model of find.rs/array/variable/expression and of the Literal grammar alternatives (validated differentially). Float literal conversion and printing (str::parse::<f64>, f64 Display) are external: the correspondence only checks that `{{ d }}` prints what Rust's own parse+Display gives. The pest grammar's tokenisation of the path syntax itself is exercised, not modelled (C01).",
+        "technique": "Lean 4 proof (index arithmetic, induction over paths, digit round-trip by strong induction) + differential correspondence",
+        "design_ref": "DESIGN.md section 7 C07",
+    },
     "C06": {
         "rule": "every operator x every ordered pair of the ~30-value pool through variables, as literals and mixed; truthiness of every pool value (if and unless) and of undefined / nested-undefined paths; if/elsif chains of 1..4 arms under all truth assignments with and without else; unless/else; case/when with 1..4 arms, comma and `or` lists, duplicates and overlaps; and/or chains of length 1..4 in every connective pattern under all truth assignments (flat source, grouped by the parser under test and by the Lean model of parse_condition); random nested conditionals; non-trivial = distinct (template,data) with a non-empty result",
         "explanation": "Lean theorems C06_* about the model of if_block.rs / case_block.rs (exactly one branch, unless = negated if, elsif chains, case/when first match, truthiness table, operators as functions of valueEq/valueCmp, contains, empty/blank, precedence and associativity of and/or in the model of parse_condition, malformed conditions rejected) + differential run against the real crate, plus an independent truth-table spec for chains and and/or shapes",
